@@ -80,10 +80,10 @@ PROPS["C08"] = dict(
 )
 PROPS["C02"] = dict(
     title="Query and Scan return exactly the matching items, in sort-key order",
-    quick=[G("M_READ")],
-    thorough=[G("M_READ", cfg="M_READ_t")],
-    own=[parts("Outcome", "Data", "NoCrash")],
-    when=lambda f: f["op"] in ("Query", "Scan"),
+    quick=[G("M_READ"), T("M_DOTQ"), G("M_IDX")],
+    thorough=[G("M_READ", cfg="M_READ_t"), T("M_DOTQ"), G("M_IDX", cfg="M_IDX_t")],
+    own=[parts("Outcome", "Data", "NoCrash"), parts("Index")],
+    when=lambda f: f["op"] in ("Query", "Scan", "Walk") or any(p.endswith(".Index") for p in f["parts"]),   # reads, and reads through indexes in observations
     design_ref="DESIGN.md 6 C02",
     level_text="Every Query / Scan of a menu (partition x sort-key condition {=,<,<=,>,>=,BETWEEN,begins_with} x filter x direction x "
                "base table / two global secondary indexes) is issued in every reachable content of a bounded hash+range table on both clients; "
